@@ -53,15 +53,15 @@ def run(ctx):
     thorough = not ctx.quick
     group = 'thorough' if thorough else 'quick'
     jobs = [
-        # 1. design model with the vacuity guard: every generator action taken, reference compilation accepted,
-        #    a dropped side-effecting unit rejected (invariants NaiveOK / DropDetected of SynthGraphGen.tla)
-        lambda: sp.tlc_programs(ctx, 'coverS', cover=ALL_ACTIONS, workers=2, timeout=600, label='coverS (coverage)'),
         # 1b. L2: every stage of the transcribed optimiser (after construction, after each unit's optimisation,
         #     after the sort) implements the program (invariant OptOK of SynthOpt.tla)
         lambda: sp.tlc_programs(ctx, 'quick' if thorough else 'l2S', timeout=3000, workers=6 if thorough else 3,
                                 module='SynthOpt', label='optimiser model: every rewrite preserves the denotation'),
         # 2. S->C: every program of every slice of the tier (same invariants checked on all of them)
-        lambda: sp.tlc_programs(ctx, group, timeout=3000, workers=10, label='all programs of group ' + group),
+        #    vacuity guard: every generator action must have produced programs (the generator records the actions
+        #    it took in its state and prints them; invariants NaiveOK / DropDetected checked on every state)
+        lambda: sp.tlc_programs(ctx, group, timeout=3000, workers=10, label='all programs of group ' + group,
+                                cover=ALL_ACTIONS + ('AddList', 'Finish2', 'FinishAll')),
     ]
     # 3. longer programs and the slices too big to enumerate: random walks of the same generator (several seeds)
     nlong = 4 if thorough else 1
@@ -75,13 +75,13 @@ def run(ctx):
                                                 label='random walks of the big slices %d' % k, tag='s%d' % k))
     with ThreadPoolExecutor(max_workers=len(jobs)) as ex:
         res = [f.result() for f in [ex.submit(j) for j in jobs]]
-    progs = list(res[2])
+    progs = list(res[1])
     nexh = len(progs)
     if not any(p['name'] == 'twoS' for p in progs):
         raise MachineryError('vacuity: no program with two output units (Finish2) was generated')
     seen = set(json.dumps(p, sort_keys=True) for p in progs)
     longp = []
-    for extra in res[3:]:
+    for extra in res[2:]:
         for p in extra:
             k = json.dumps(p, sort_keys=True)
             if k not in seen:
